@@ -1,45 +1,85 @@
 ---------------------------- MODULE TraceJsonRpc ----------------------------
 (* Trace validation for C18 (conn half): executions of the REAL lsp/jsonrpc2 conn, recorded by the
    verif hooks (reg / wbeg / wend / disp / del, ordered by the global sequence counter taken inside the
-   protecting lock) and by the harness, which is the environment (start, cancel, reply, pnotify, pcall,
-   ret), must be behaviours of JsonRpc.  One line of c18trace.ndjson = one case:
+   protecting lock) and by the harness, which is the environment (cancel, reply, pnotify, pcall, stray,
+   pong, ret), must be behaviours of JsonRpc.  One line of c18trace.ndjson = one case:
 
-     {"id": n, "ev": [ {"e": kind, "w": who, "found": bool, "failed": bool, "pend": [ids], "res": r}, ... ]}
+     {"id": n, "eager": bool, "regnum": [k1..kNC], "lazy": [callers], "ev": [ event, ... ]}
+     event = {"e": kind, "w": who, "id": typed id, "found": bool, "failed": bool, "pend": [typed ids], "res": r}
 
-   who: caller 1..NC (real ids are mapped to the caller that registered them), notifier 11.., run loop 0.
+   who: the caller 1..NC whose goroutine is inside the critical section (the harness knows its goroutines),
+   notifier 11.., run loop 0.  Ids are the REAL ids, typed: [t |-> "num"|"str", v |-> text, n |-> value].
    Every event is matched with the spec action of the same critical section and its logged fields are
-   compared with the model's state; the steps without a hook (header/body bytes, take, send, the select)
-   are interleaved as silent steps.  A case is accepted when some interleaving consumes all its events
-   (ACCEPT line); a case without an ACCEPT line is behaviour of the real code that the spec forbids.  *)
+   compared with the model's state: the id a call registers / writes / deletes is the id the model's counter
+   gave it and is not pending when it is registered (UniqueIds); the pending map has exactly the model's keys;
+   the id the run loop looks up or answers a call of the peer with is the id the peer wrote, with its type
+   (IdTypePreserved); Call returns the marker of its own request (Matched).
+
+   The steps without a hook (id allocation, header/body bytes, take, send, the select) are silent steps.
+   The id allocation has no hook: regnum[c] is the number in c's reg event, and Alloc(c) is taken exactly when
+   the model's counter is about to produce that number (allocation commutes with everything else, so taking it
+   as early as possible loses no behaviour).  A case is validated either with every interleaving of the other
+   silent steps (eager = FALSE) or, for the bursts of many concurrent callers, with each silent step taken as
+   soon as it is enabled (eager = TRUE): whdr/wbody/take/send/recv only enable other steps, except for callers
+   that are cancelled in the case ("lazy"), whose silent steps stay free.  A case rejected in eager mode is
+   validated again with all interleavings before it is reported.  A case is accepted when some interleaving
+   consumes all its events (ACCEPT line); a case without an ACCEPT line is behaviour of the real code that
+   the spec forbids.  *)
 EXTENDS JsonRpc
 
 Trace == ndJsonDeserialize("c18trace.ndjson")
 
-VARIABLES case, i
-tvars == <<case, i>>
+VARIABLES case, i, np     \* np: pong events consumed
+tvars == <<case, i, np>>
 
 SetOf(s) == {s[k] : k \in 1..Len(s)}
 Ev == Trace[case].ev
+RegNum(c) == Trace[case].regnum[c]
+LazyCallers == SetOf(Trace[case].lazy)
 
-SilentActs == {"whdr", "wbody", "refuse", "recv", "cancelled", "take", "send"}
-Silent == \E l \in {x \in Labels : x.a \in SilentActs} : Do(l)
+\* the caller whose reg event carries the number the counter produces next
+AllocDue == {c \in Callers : pc[c] = "idle" /\ RegNum(c) = seq + 1}
+
+FreeSilentActs == {"whdr", "wbody", "refuse", "recv", "cancelled", "take", "send"}
+FreeSilent == \E l \in {x \in Labels : x.a \in FreeSilentActs} : Do(l)
+
+\* eager mode: silent steps that are taken as soon as they are enabled ...
+EagerNow == {Lab("whdr", w) : w \in {x \in Writers : pc[x] = "hdr" /\ x \notin LazyCallers}}
+            \cup {Lab("wbody", w) : w \in {x \in Writers : pc[x] = "body"}}
+            \cup {Lab("take", m) : m \in {x \in Callers \cup {0, STRAY} : rd.pc = "read" /\ inq # <<>> /\ Head(inq).tok = x}}
+            \cup {Lab("send", m) : m \in {x \in Callers \cup {0, STRAY} : rd.pc = "send" /\ rd.tok = x /\ CanSend(rd.to)}}
+            \cup {Lab("recv", c) : c \in {x \in Callers : pc[x] = "wait" /\ chan[x] # <<>> /\ x \notin LazyCallers}}
+\* ... and those that stay free (a cancelled caller may see its context first)
+LazySilent == \E l \in {x \in Labels : x.a \in {"whdr", "refuse", "recv", "cancelled"} /\ x.w \in LazyCallers} : Do(l)
 
 EventStep(e) ==
-    CASE e.e = "reg"    -> Do(Lab("reg", e.w)) /\ pending' = SetOf(e.pend)
-      [] e.e = "wbeg"   -> Do(Lab("acq", e.w))
+    CASE e.e = "reg"    -> /\ e.id \notin PendIds                 \* a call registers an id that is not pending
+                           /\ Do(Lab("reg", e.w)) /\ e.id = MyId(e.w) /\ PendIds' = SetOf(e.pend)
+      [] e.e = "wbeg"   -> /\ Do(Lab("acq", e.w))
+                           /\ (e.w \in Callers => e.id = MyId(e.w))
+                           /\ (e.w = Rd => e.id = rd.id)           \* the response to the peer's call carries the id it came with
       [] e.e = "wend"   -> Do(Lab("rel", e.w)) /\ e.failed = (e.w \in Callers /\ werr[e.w])
-      [] e.e = "disp"   -> Do(Lab("lookup", e.w)) /\ e.found = (e.w \in pending) /\ pending = SetOf(e.pend)
-      [] e.e = "del"    -> Do(Lab("del", e.w)) /\ pending' = SetOf(e.pend)
+      [] e.e = "disp"   -> /\ rd.pc = "lookup" /\ e.id = rd.id     \* the id looked up is the id the peer wrote, with its type
+                           /\ ReaderLookup /\ e.found = (rd.id \in PendIds) /\ PendIds = SetOf(e.pend)
+      [] e.e = "del"    -> Do(Lab("del", e.w)) /\ e.id = MyId(e.w) /\ PendIds' = SetOf(e.pend)
       [] e.e = "cancel" -> IF pc[e.w] = "done" \/ cancelled[e.w] THEN UNCHANGED vars ELSE Do(Lab("cancel", e.w))
-      [] e.e = "reply"  -> Do(Lab("reply", e.w))
+      [] e.e = "reply"  -> Do(Lab("reply", e.w)) /\ e.id = MyId(e.w)   \* the request the peer answers carried the registered id
       [] e.e = "pnotify" -> Do(Lab("pnotify", 0))
-      [] e.e = "pcall"  -> Do(Lab("pcall", 0))
+      [] e.e = "pcall"  -> \E k \in 1..Len(PeerCallIdSeq) : PeerCallIdSeq[k] = e.id /\ Do(Lab("pcall", k))
+      [] e.e = "stray"  -> \E k \in 1..Len(StrayIdSeq) : StrayIdSeq[k] = e.id /\ Do(Lab("stray", k))
+      [] e.e = "pong"   -> np < Len(pongs) /\ pongs[np + 1] = e.id /\ UNCHANGED vars   \* what the peer received
       [] e.e = "ret"    -> pc[e.w] = "done" /\ result[e.w] = e.res /\ UNCHANGED vars
       [] OTHER          -> FALSE
 
-TraceInit == Init /\ case \in 1..Len(Trace) /\ i = 1
-TraceNext == \/ i <= Len(Ev) /\ EventStep(Ev[i]) /\ i' = i + 1 /\ case' = case
-             \/ i <= Len(Ev) /\ Silent /\ UNCHANGED tvars
+Consume == /\ i <= Len(Ev) /\ EventStep(Ev[i]) /\ i' = i + 1 /\ case' = case
+           /\ np' = IF Ev[i].e = "pong" THEN np + 1 ELSE np
+
+TraceInit == Init /\ case \in 1..Len(Trace) /\ i = 1 /\ np = 0
+TraceNext ==
+    IF AllocDue # {} THEN \E c \in AllocDue : Do(Lab("alloc", c)) /\ UNCHANGED tvars
+    ELSE IF ~Trace[case].eager THEN Consume \/ (i <= Len(Ev) /\ FreeSilent /\ UNCHANGED tvars)
+    ELSE IF EagerNow # {} THEN \E l \in EagerNow : Do(l) /\ UNCHANGED tvars
+    ELSE Consume \/ (i <= Len(Ev) /\ LazySilent /\ UNCHANGED tvars)
 
 Accept == (i = Len(Ev) + 1) => PrintT(<<"ACCEPT", ToJson([id |-> Trace[case].id])>>)
 \* diagnostic run over rejected cases: how far does any interleaving get?
